@@ -967,8 +967,8 @@ func (s *Sim) genEvmTx(deploy bool) *TxSpec {
 	if deploy {
 		// "empty-runtime": the constructor runs and returns no code (a deployment that succeeds and leaves
 		// an account without code); "raw-stop": the init code is a single STOP
-		progs := [][]byte{progStore(r), progForward(), progReverter(), progBalanceReader(), progSuicide(), progForwardAll(), progProbeRevert(), progCallIgnoring(), {}, nil}
-		names := []string{"store", "forward", "reverter", "balance-reader", "suicide", "forward-all", "probe-revert", "call-ignoring", "empty-runtime", "raw-stop"}
+		progs := [][]byte{progStore(r), progForward(), progReverter(), progBalanceReader(), progSuicide(), progForwardAll(), progProbeRevert(), progCallIgnoring(), {}, nil, progBlockEnv()}
+		names := []string{"store", "forward", "reverter", "balance-reader", "suicide", "forward-all", "probe-revert", "call-ignoring", "empty-runtime", "raw-stop", "block-env"}
 		i := r.Intn(len(progs))
 		t := s.baseTx(6, from, make([]byte, 20))
 		t.Data = deployer(progs[i])
